@@ -148,6 +148,40 @@ def rex_obligations(rep, tier):
     except RexUnsupported as e:
         rep.add(Result("C01.spec", UNDECIDED, function=fn, output=str(e)))
         return
+    # ... and nothing more: what a line-based / bracketed matcher consumes in one match is one
+    # documented construct (full-match languages; preference between matches does not matter for an
+    # inclusion).  A matcher that can run past its line terminator would swallow following text.
+    ONLY = {
+        "match_control_line": r"(?<=^)[\t ]*(?:%(?!%)|\#\#)(?:\\\r?\n|[^\r\n])*(?:\r?\n|\Z)",
+        "match_percent": r"(?<=^)\s*%%+",
+        "match_expression": r"\$\{",
+        "match_python_block": r"<%!?",
+        "match_tag_end": r"</%[\t ]*[^\t ]+?[\t ]*>",
+    }
+    for m, pat in ONLY.items():
+        allp["only:" + m] = (pat, re.M)
+    try:
+        Q3 = RexQuery(allp)
+    except RexUnsupported as e:
+        rep.add(Result("C01.only", UNDECIDED, function=fn, output=str(e)))
+        return
+    for m, pat in ONLY.items():
+        full_m = Q3.L.rest(Q3.nodes[m], Q3.A.empty_rest())
+        full_s = Q3.L.rest(Q3.nodes["only:" + m], Q3.A.empty_rest())
+        extra = full_m.minus(full_s)
+        wit = None if extra.is_empty() else [Q3.word_string(w) for w in extra.witnesses(3)]
+        r = rex_result("C01.only[%s]" % m, extra.is_empty(),
+                       "every string %s can consume in one match is one documented construct %r" % (m, pat), fn, witness=wit)
+        if wit:
+            conf = []
+            rx = re.compile(*cascade[m]) if cascade[m][1] else re.compile(cascade[m][0])
+            for ctx, text in wit:
+                mm = rx.match(ctx + text, len(ctx))
+                if mm is not None and mm.end() == len(ctx + text):
+                    conf.append({"string": ctx + text, "consumed": mm.group(0)})
+            r.replayed = bool(conf)
+            r.replay = {"how": "the lexer's own pattern consumes the whole witness in one match", "confirmed": conf}
+        rep.add(r)
     for k, (m, pat, fl) in SPEC.items():
         miss = Q2.matches("spec:" + k).minus(Q2.matches(m))
         wit = None if miss.is_empty() else [Q2.word_string(w) for w in miss.witnesses(3)]
